@@ -14,8 +14,11 @@ import (
 
 // Knobs are the legal variations a conformant peer may choose.
 type Knobs struct {
-	LowerHex     bool `json:"lower_hex,omitempty"`     // percent-escapes in lower-case hex
-	PadBase64    bool `json:"pad_base64,omitempty"`    // padded base64 in -bin values
+	LowerHex  bool `json:"lower_hex,omitempty"`  // percent-escapes in lower-case hex
+	PadBase64 bool `json:"pad_base64,omitempty"` // padded base64 in -bin values
+	// CompressEnd: the final Connect end-of-stream envelope resp. gRPC-Web
+	// trailer frame is compressed (and flagged so) with the response encoding
+	CompressEnd  bool `json:"compress_end,omitempty"`
 	LowerKeys    bool `json:"lower_keys,omitempty"`    // lower-case keys in trailer block / end-stream metadata
 	FinalCRLF    bool `json:"final_crlf,omitempty"`    // trailer block ends with CRLF
 	TrailersOnly bool `json:"trailers_only,omitempty"` // body-less gRPC response: status in headers
@@ -118,7 +121,12 @@ func BuildResponse(s *RespSpec) (*Response, error) {
 			r.Trailer = md
 			return r, nil
 		}
-		r.Body = AppendFrame(r.Body, FlagGRPCWebTrailer, FormatTrailerBlock(md, s.Knobs.LowerKeys, s.Knobs.FinalCRLF))
+		block := FormatTrailerBlock(md, s.Knobs.LowerKeys, s.Knobs.FinalCRLF)
+		if s.Knobs.CompressEnd && s.Encoding != "" && s.Encoding != "identity" {
+			r.Body = AppendFrame(r.Body, FlagGRPCWebTrailer|FlagCompressed, comp.Compress(s.Encoding, block))
+			return r, nil
+		}
+		r.Body = AppendFrame(r.Body, FlagGRPCWebTrailer, block)
 		return r, nil
 	case "connect":
 		if s.Kind == "unary" {
@@ -164,6 +172,10 @@ func BuildResponse(s *RespSpec) (*Response, error) {
 			end["metadata"] = md
 		}
 		eb, _ := json.Marshal(end)
+		if s.Knobs.CompressEnd && s.Encoding != "" && s.Encoding != "identity" {
+			r.Body = AppendFrame(r.Body, FlagConnectEnd|FlagCompressed, comp.Compress(s.Encoding, eb))
+			return r, nil
+		}
 		r.Body = AppendFrame(r.Body, FlagConnectEnd, eb)
 		return r, nil
 	}
